@@ -44,6 +44,7 @@ func runC08(c *Ctx) {
 	ruleStripQuotes(c, "C08.8")
 	ruleEncodeFreshBuffer(c, "C08.9")
 	ruleMutatorAtomic(c, "C08.10")
+	c01RootRelocation(c, "C08.11")
 }
 
 // ---- C08.1 -----------------------------------------------------------------
@@ -748,6 +749,9 @@ func runC14(c *Ctx) {
 	ruleEncodeFreshBuffer(c, "C14.5")
 	ruleLoopOnlyMutatorFails(c, "C14.6")
 	ruleMutatorAtomic(c, "C14.7")
+	ruleErrorsNotDropped(c, "C14.8", "storage.(*BTree).insert", "storage.(*RelationService).Insert")
+	rulePostMutationInfallible(c, "C14.9")
+	c08Literals(c, "C14.10")
 }
 
 func c14RowValidationFirst(c *Ctx, rule string) {
